@@ -9,7 +9,8 @@ tag=$(echo "$patch" | sha256sum | cut -c1-8)
 root=$CACHE/seeds/$tag
 rm -rf "$root"; mkdir -p "$root"
 rsync -a --exclude target --exclude .git /repo/ "$root/"
-( cd "$root" && git apply "$patch" ) || { echo "PATCH DOES NOT APPLY"; rm -rf "$root"; exit 3; }
+# a hook line added to /repo after a seed was written can shift a hunk's context: fall back to a fuzzy apply of the same change
+( cd "$root" && { git apply "$patch" 2>/dev/null || patch -p1 -F3 --no-backup-if-mismatch -s < "$patch"; } ) || { echo "PATCH DOES NOT APPLY"; rm -rf "$root"; exit 3; }
 tier=${TIER:-quick}
 for id in "$@"; do
   VERIF_REPO=$root VERIF_EVIDENCE_DIR=$root/_evidence VERIF_REPLAY_TARGET=$CACHE/seeds/replay-target-$tag ./check "$id" --tier "$tier" > "$root/out_$id.log" 2>&1
